@@ -1,0 +1,8 @@
+//go:build !verif
+// +build !verif
+
+package log
+
+const verif = false
+
+func verifPoint(point string, dir string) {}
